@@ -1516,3 +1516,89 @@ def r_mail(d):
 
 
 REALISERS.append(("pygopherd/handlers/mbox.py::MessageHandler.getentry", r_mail))
+
+
+# ------------------------------------------------------------------- real sockets, clear text and TLS (C04 stand-in)
+def r_real_sockets(d):
+    """The production server classes on an ephemeral localhost port with the repository's demo certificate: the same
+    documents fetched in clear text and over TLS (Gopher, HTTP(S), Gemini) must be the file's bytes.  Sees what an
+    in-memory socket cannot: anything written below the TLS layer, short writes, descriptor misuse."""
+    import shutil, socket, ssl, tempfile, threading
+    repo = os.environ.get("PYVC_REPO", os.getcwd())
+    top = tempfile.mkdtemp(prefix="pyvc-sock-", dir="/var/tmp")
+    server = None
+    try:
+        import pygopherd.handlers.base as hb
+        import pygopherd.handlers.HandlerMultiplexer as hm
+        from pygopherd import initialization, logger
+        from pygopherd.server import GopherRequestHandler, ThreadingTCPServer
+        files = {"small.txt": b"hello, world\r\nsecond line\n", "block.bin": bytes(range(256)) * 16,
+                 "large.bin": (bytes(range(256)) + b"\x00\xff\r\n.\r\n") * 1200 + b"tail", "empty.bin": b""}
+        for n, c in files.items():
+            open(os.path.join(top, n), "wb").write(c)
+        cfg = _config({})
+        cfg.set("pygopherd", "root", top)
+        hb.rootpath = None; hm.rootpath = None; hm.handlers = None
+        logger.log = lambda m: None
+        initialization.init_mimetypes(cfg)
+        ctx = ssl.create_default_context(ssl.Purpose.CLIENT_AUTH)
+        ctx.load_cert_chain(os.path.join(repo, "testdata", "demo.crt"), os.path.join(repo, "testdata", "demo.key"))
+        server = ThreadingTCPServer(cfg, ("127.0.0.1", 0), GopherRequestHandler, context=ctx)
+        server.daemon_threads = True
+        server.handle_error = lambda request, client_address: None
+        threading.Thread(target=server.serve_forever, daemon=True).start()
+        addr = server.server_address[:2]
+
+        def fetch(req, tls):
+            raw = socket.create_connection(addr, timeout=20)
+            try:
+                sock = raw
+                if tls:
+                    c = ssl.SSLContext(ssl.PROTOCOL_TLS_CLIENT)
+                    c.check_hostname = False
+                    c.verify_mode = ssl.CERT_NONE
+                    sock = c.wrap_socket(raw)
+                sock.sendall(req)
+                out = []
+                while True:
+                    try:
+                        data = sock.recv(65536)
+                    except (ssl.SSLError, ConnectionResetError, socket.timeout) as e:
+                        out.append(b"<<stream error: %s>>" % str(e).encode())
+                        break
+                    if not data:
+                        break
+                    out.append(data)
+                return b"".join(out)
+            finally:
+                raw.close()
+
+        def after(sep, prefix):
+            def f(resp):
+                head, s_, body = resp.partition(sep)
+                return body if s_ and head.startswith(prefix) else None
+            return f
+
+        cases = [("gopher", b"/%s\r\n", False, lambda r: r), ("gopher over TLS", b"/%s\r\n", True, lambda r: r),
+                 ("http", b"GET /%s HTTP/1.0\r\n\r\n", False, after(b"\r\n\r\n", b"HTTP/1.0 200")), ("https", b"GET /%s HTTP/1.0\r\n\r\n", True, after(b"\r\n\r\n", b"HTTP/1.0 200")),
+                 ("gemini", b"gemini://localhost/%s\r\n", True, after(b"\r\n", b"20 "))]
+        for n, content in files.items():
+            for label, tmpl, tls, body in cases:
+                resp = fetch(tmpl % n.encode(), tls)
+                got = body(resp)
+                if got != content:
+                    return {"confirmed": True, "scenario": "%s fetched through %s on a real socket is not the file's bytes" % (n, label),
+                            "expected bytes": len(content), "received": (len(got) if got is not None else None), "response head": repr(resp[:120])}
+        return {"confirmed": None, "note": "real-socket fetches agree with the files"}
+    except Exception as e:  # noqa: harness trouble is not a verdict
+        import traceback
+        return {"confirmed": None, "harness_error": traceback.format_exc()[-800:]}
+    finally:
+        if server is not None:
+            server.shutdown()
+            server.server_close()
+        shutil.rmtree(top, ignore_errors=True)
+
+
+_prev_copyto = find("pygopherd/handlers/base.py::VFS_Real.copyto")
+REALISERS.append(("pygopherd/handlers/base.py::VFS_Real.copyto", lambda d: (_first_confirmed(_prev_copyto, r_real_sockets)(d) if d.get("kind") == "standin" else _prev_copyto(d))))
